@@ -258,9 +258,9 @@ void MEDDLY::dist_inc_mt::_compute(int L, unsigned in,
     // reduction rule than the input forest.
     //
     if (argF->isIdentityReduced()) {
-        cp = resF->makeIdentitiesTo(cp, 0, L, in);
+        cp = resF->makeIdentitiesTo(cp, Clevel, L, in);
     } else {
-        cp = resF->makeRedundantsTo(cp, 0, L);
+        cp = resF->makeRedundantsTo(cp, Clevel, L);
     }
 
 #ifdef TRACE
